@@ -186,6 +186,8 @@ def lib_set(e, st, a, kw, n):
         return VPySet(e.key_of(i_) for i_ in x.items)
     if isinstance(x, VPySet):
         return x
+    if isinstance(x, VStr) and not x.s.startswith("<"):          # the characters of a concrete string
+        return VPySet(x.s)
     raise Unsupported("set() of " + type(x).__name__)
 
 
